@@ -79,10 +79,10 @@ func init() {
 					}
 				}
 			}
-			for failAt := 1; failAt <= 4; failAt++ {
-				for mode := 1; mode <= 2; mode++ {
+			for failAt := 1; failAt <= 3; failAt++ {
+				for mode := 1; mode <= 3; mode++ {
 					reach := []string{"failed"}
-					if failAt > 2 {
+					if failAt > 1 || mode == 3 {
 						reach = []string{"failed", "ok"}
 					}
 					cs = append(cs, driver.Case{Harness: "verifH_c12_ecdh_genkey", Pkg: "ecdh", Config: "purego", Params: P("failat", failAt, "mode", mode), MaxUnwind: 200, TimeoutS: 1200, MustReach: reach})
